@@ -12,6 +12,10 @@ package diag
 //@   pure
 //@   functional
 
+// A Ranging is its own range (Ranging.Range returns the receiver).
+//@ axiom range_of_ranging(x Ranging)
+//@   ensures Ranger.Range(x) === x
+
 //@ func firstLine
 //@   props C37
 //@   pure
@@ -51,3 +55,11 @@ package diag
 //@   ensures bodyend(source, r) == r.To ==> r.To + len(result.tail) <= len(source) && result.tail === source[r.To : r.To + len(result.tail)]
 //@   ensures bodyend(source, r) == r.To ==> nl(source, r.To, r.To + len(result.tail)) == 0
 //@   ensures bodyend(source, r) == r.To ==> r.To + len(result.tail) == len(source) || source[r.To + len(result.tail)] == '\n'
+
+//@ func NewContext
+//@   props C37
+//@   pure
+//@   requires [range-in-source] 0 <= Ranger.Range(r).From && Ranger.Range(r).From <= Ranger.Range(r).To && Ranger.Range(r).To <= len(source)
+//@   ensures result != nil && fresh(result)
+//@   ensures result.From == Ranger.Range(r).From && result.To == Ranger.Range(r).To
+//@   ensures result.StartLine == nl(source, 0, Ranger.Range(r).From) + 1
